@@ -301,6 +301,24 @@ Qed.
 Theorem run_yaml_sim sp v v' : ysim v v' -> res_sim (run_yaml sp v) (run_yaml sp v').
 Proof. intros H. unfold run_yaml. apply bind_sim; [apply parse_desc_sim; exact H|]. intros d. apply res_sim_refl. Qed.
 
+(* ------------------------------------------------------------------ similarity is an equivalence *)
+(* (reflexivity: ysim_refl above) so that reorderings compose and can be undone *)
+Lemma ysim_sym : forall a b, ysim a b -> ysim b a.
+Proof.
+  fix IH 3. intros a b H. destruct H as [| | | |l l' Hl|m m' Hm]; try constructor.
+  - revert l l' Hl. fix IHl 3. intros l l' Hl. destruct Hl as [|x y l l' Hxy Hl]; constructor; [apply IH; exact Hxy|apply IHl; exact Hl].
+  - intros k. destruct (Hm k) as [|x y Hxy]; constructor. apply IH. exact Hxy.
+Qed.
+Lemma ysim_trans : forall a b c, ysim a b -> ysim b c -> ysim a c.
+Proof.
+  fix IH 4. intros a b c H1 H2. destruct H1 as [| | | |l l' Hl|m m' Hm]; inversion H2; subst; try constructor.
+  - clear H2. match goal with X : Forall2 ysim l' ?l3 |- _ => rename X into Hl2; revert l l' l3 Hl Hl2 end.
+    fix IHl 4. intros l l' l3 Hl Hl2. destruct Hl as [|x y l l' Hxy Hl]; inversion Hl2; subst; constructor;
+      [eapply IH; [exact Hxy|eassumption]|eapply IHl; [exact Hl|eassumption]].
+  - clear H2. intros k. match goal with X : forall k, orel ysim (yget k m') (yget k ?m3) |- _ => pose proof (X k) as H3 end.
+    destruct (Hm k) as [|x y Hxy]; inversion H3; subst; constructor. eapply IH; [exact Hxy|eassumption].
+Qed.
+
 (* ------------------------------------------------------------------ a decision procedure that is sound for ysim *)
 (* (fuel = nesting depth) mappings: distinct keys on both sides, as many entries, every entry of the left answered by a
    similar value on the right *)
